@@ -98,6 +98,18 @@ def _os_path_join(V, st, self_val, args, kwargs, node):
     return SV(STR, cur)
 
 
+def _os_path_dirname(V, st, self_val, args, kwargs, node):
+    """os.path.dirname: an uninterpreted function of the path text (str or Path-as-text), result of the same kind"""
+    import z3
+    from pyvc.values import SV, Unsupported
+    a = args[0]
+    if not (isinstance(a, SV) and a.t in (STR, PATH)):
+        raise Unsupported('os.path.dirname of %r' % (a,))
+    V.assumed_used.add('os.path.dirname')
+    f = V.uf('os.path.dirname', [z3.StringSort()], z3.StringSort())
+    return SV(a.t, f(a.z))
+
+
 def os_ns():
     import z3
     from pyvc.values import SV, MFn
@@ -105,7 +117,7 @@ def os_ns():
         'sep': SV(STR, z3.StringVal('/')),
         'join': MFn('spec', 'os.path.join', spec=FnSpec('os.path.join', impl=_os_path_join, assumed=True)),
         'dirname': MFn('spec', 'os.path.dirname', spec=FnSpec('os.path.dirname', params=[('p', PATH)], ret=PATH,
-                                                              pure=True, assumed=True)),
+                                                              pure=True, assumed=True, impl=_os_path_dirname)),
     })})
 
 
